@@ -30,15 +30,18 @@ Proof.
       (destruct (U32_LIMIT <=? _); [discriminate|]; intros H; inversion H; subst; auto).
 Qed.
 
-Lemma cc_write_ids x b y sent : cc_write x b = inl (y, sent) ->
+Lemma cc_write_ids x b k y sent : cc_write x b k = inl (y, sent) ->
   sc_gid y = sc_gid x /\ sc_client y = sc_client x /\ exists rest, unsent (sc_conn x) = sent ++ rest.
 Proof.
   unfold cc_write.
   set (offered := match c_rbuf (sc_conn x) with Some b0 => b0
                   | None => match c_rq (sc_conn x) with r :: _ => serialize r | [] => [] end end).
-  assert (Hoff : exists rest, unsent (sc_conn x) = offered ++ rest).
-  { unfold unsent, offered. destruct (c_rbuf (sc_conn x)); [eauto|].
-    destruct (c_rq (sc_conn x)); cbn [flat_map app]; [exists []; reflexivity|eauto]. }
+  set (n := if Nat.eqb k 0 then length offered else Nat.min k (length offered)).
+  assert (Hoff : exists rest, unsent (sc_conn x) = firstn n offered ++ rest).
+  { assert (H0 : exists rest, unsent (sc_conn x) = offered ++ rest).
+    { unfold unsent, offered. destruct (c_rbuf (sc_conn x)); [eauto|].
+      destruct (c_rq (sc_conn x)); cbn [flat_map app]; [exists []; reflexivity|eauto]. }
+    destruct H0 as [rest H0]. exists (skipn n offered ++ rest). rewrite app_assoc, firstn_skipn. exact H0. }
   assert (G : forall ev,
     (let '(c1, res, _) := try_write (sc_conn x) ev in
      match res with
@@ -46,7 +49,7 @@ Proof.
      | WrErr InvalidWrite => inr EInvalidWrite
      | WrErr _ => inl (mkSC c1 SClosed (sc_infl x) (sc_client x) (sc_out x) (sc_gid x), [])
      | WrOk => inl (mkSC c1 (if pending_write c1 then sc_st x else AwaitIn) (sc_infl x) (sc_client x) (sc_out x) (sc_gid x),
-                    if b then offered else [])
+                    if b then firstn n offered else [])
      end) = inl (y, sent) ->
     sc_gid y = sc_gid x /\ sc_client y = sc_client x /\ exists rest, unsent (sc_conn x) = sent ++ rest).
   { intros ev. destruct (try_write (sc_conn x) ev) as [[c1 res] off]. destruct res as [|e|s]; [| |discriminate].
@@ -75,7 +78,7 @@ Proof.
             bound beta (Server.mkW clients' (aupdate fd y (w_conns w)) (w_backlog w) (w_tokens w) (w_nextg w) (w_limit w) (w_killed w))).
   { intros fd x y cl' HL Hg Hc fd0 x0 H0. cbn [w_conns] in H0. apply alookup_update_cases in H0.
     destruct H0 as [(-> & -> & _)|(_ & H0)]; [rewrite Hg, Hc; eauto|eauto]. }
-  destruct e as [fd|fd|fd|nf|]; cbn [Server.handle_event] in H.
+  destruct e as [fd|fd|fd kk|nf|]; cbn [Server.handle_event] in H.
   - destruct (alookup fd (w_conns w)) as [x|] eqn:HL; [|discriminate]. inversion H; subst w' ys; clear H.
     exists beta. split; [auto|]. split; [|split; [cbn; lia|intros ? ? ? []]].
     unfold set_conn. eapply Upd; eauto.
@@ -88,7 +91,7 @@ Proof.
     + intros fd0 g r Hin. apply in_map_iff in Hin. destruct Hin as (r0 & E & _). inversion E; subst. eauto.
   - destruct (alookup fd (w_conns w)) as [x|] eqn:HL; [|discriminate].
     destruct (cc_write x _) as [[y sent]|] eqn:W; [|discriminate]. inversion H; subst w' ys; clear H.
-    destruct (cc_write_ids _ _ _ _ W) as (Hg & Hc & _).
+    destruct (cc_write_ids _ _ _ _ _ W) as (Hg & Hc & _).
     exists beta. split; [auto|]. split; [|split; [cbn; lia|intros ? ? ? []]].
     unfold set_client, set_conn. cbn [w_clients w_conns w_backlog w_tokens w_nextg w_limit w_killed].
     eapply Upd; eauto; destruct (sc_st y); cbn; auto.
@@ -195,10 +198,10 @@ Theorem event_delivery w e w' ys c :
   handle_event w e = inl (w', ys) ->
   exists d, k_rx (client_of w' c) = k_rx (client_of w c) ++ d /\
     (d = [] \/
-     (exists fd x rest, e = EvOut fd /\ alookup fd (w_conns w) = Some x /\ sc_client x = c /\ unsent (sc_conn x) = d ++ rest) \/
+     (exists fd kk x rest, e = EvOut fd kk /\ alookup fd (w_conns w) = Some x /\ sc_client x = c /\ unsent (sc_conn x) = d ++ rest) \/
      (exists nf rest, e = EvListener nf /\ w_backlog w = c :: rest /\ d = SERVER_FULL_ERROR_MESSAGE)).
 Proof.
-  destruct e as [fd|fd|fd|nf|]; cbn [Server.handle_event].
+  destruct e as [fd|fd|fd kk|nf|]; cbn [Server.handle_event].
   - destruct (alookup fd (w_conns w)); [|discriminate]. intros H; inversion H; subst. exists []. rewrite app_nil_r. auto.
   - destruct (alookup fd (w_conns w)) as [x|]; [|discriminate].
     destruct (cc_read x _) as [[y rs]|]; [|discriminate]. intros H; inversion H; subst w' ys; clear H.
@@ -208,11 +211,11 @@ Proof.
     unfold client_of. destruct (alookup (sc_client x) (w_clients w)); reflexivity.
   - destruct (alookup fd (w_conns w)) as [x|] eqn:HL; [|discriminate].
     destruct (cc_write x _) as [[y sent]|] eqn:W; [|discriminate]. intros H; inversion H; subst w' ys; clear H.
-    destruct (cc_write_ids _ _ _ _ W) as (_ & _ & rest & Hu).
+    destruct (cc_write_ids _ _ _ _ _ W) as (_ & _ & rest & Hu).
     unfold client_of at 1. cbn [set_client set_conn w_clients]. rewrite krx_update.
     destruct (Nat.eqb c (sc_client x)) eqn:E.
     + apply Nat.eqb_eq in E. subst c. unfold client_of. destruct (alookup (sc_client x) (w_clients w)) as [cl|].
-      * exists sent. cbn [k_rx]. split; [reflexivity|]. right. left. exists fd, x, rest. auto.
+      * exists sent. cbn [k_rx]. split; [reflexivity|]. right. left. exists fd, kk, x, rest. auto.
       * exists []. cbn. auto.
     + exists []. rewrite app_nil_r. auto.
   - destruct (w_backlog w) as [|c0 rest] eqn:Bk.
